@@ -367,7 +367,14 @@ class Quaternion(SMUserList):
         s = math.log(norm)
         # atan2 rather than acos(s / norm): the arc cosine of a number next to 1
         # has lost a small angle (relative error 5e-6 for |v| = 3e-6)
-        v = math.atan2(base.norm(self.v), self.s) * base.unitvec(self.v)
+        norm_v = base.norm(self.v)
+        theta = math.atan2(norm_v, self.s)
+        if norm_v > 0:
+            # (not unitvec(), which answers None for a vector part shorter than 10 eps)
+            v = (theta / norm_v) * self.v
+        else:
+            # real quaternion: no axis is defined, a negative one has angle pi
+            v = np.r_[theta, 0, 0]
         return Quaternion(s=s, v=v)
 
     def exp(self):
